@@ -95,7 +95,17 @@ fn vecs(dim: usize) -> Vec<Vec<f32>> {
 pub struct Case1 {
     pub metric: String,
     pub dim: usize,
+    /// initial population (id, vector index) inserted before the history starts
+    #[serde(default)]
+    pub init: Vec<(u64, usize)>,
     pub history: Vec<COp>,
+}
+
+/// Initial states the histories start from: empty, and two populations of three documents at
+/// strictly ordered distances from query 0 (so that k=1 -> k=2 re-stores, overwrites that move
+/// the nearest document away, etc. are within the history depth).
+pub fn inits() -> Vec<Vec<(u64, usize)>> {
+    vec![vec![], vec![(1, 0), (2, 3), (3, 1)], vec![(1, 3), (2, 0), (3, 4)]]
 }
 
 pub fn run_history(case: &Case1, st: &mut Stats) {
@@ -105,6 +115,13 @@ pub fn run_history(case: &Case1, st: &mut Stats) {
     let metric = cfg.metric();
     let vs = vecs(case.dim);
     let mut model: BTreeMap<u64, Vec<f32>> = BTreeMap::new();
+    for (id, v) in &case.init {
+        let vv = vs[*v % vs.len()].clone();
+        if te.engine.insert(*id, vv.clone(), Default::default()).is_err() {
+            return;
+        }
+        model.insert(*id, vv);
+    }
     for (step, op) in case.history.iter().enumerate() {
         match op {
             COp::I { id, v } => {
@@ -348,18 +365,20 @@ pub fn run(tier: &str, replay: Option<&str>) -> i32 {
     }
     let depth: usize = std::env::var("C07_DEPTH").ok().and_then(|s| s.parse().ok()).unwrap_or(if tier == "thorough" { 5 } else { 4 });
     let alpha = c_alphabet();
-    let mut jobs: Vec<(String, usize, usize)> = Vec::new();
+    let mut jobs: Vec<(String, usize, usize, Vec<(u64, usize)>)> = Vec::new();
     for metric in ["cosine", "euclidean", "inner_product"] {
         for dim in [2usize, 33, 40] {
-            for first in 0..alpha.len() {
-                jobs.push((metric.to_string(), dim, first));
+            for init in inits() {
+                for first in 0..alpha.len() {
+                    jobs.push((metric.to_string(), dim, first, init.clone()));
+                }
             }
         }
     }
-    let outs = vcore::par::par_map(&jobs, |_i, (metric, dim, first)| {
+    let outs = vcore::par::par_map(&jobs, |_i, (metric, dim, first, init)| {
         let mut st = Stats::default();
         for seq in sequences(alpha.len(), depth, &[*first]) {
-            let case = Case1 { metric: metric.clone(), dim: *dim, history: seq.iter().map(|&i| alpha[i].clone()).collect() };
+            let case = Case1 { metric: metric.clone(), dim: *dim, init: init.clone(), history: seq.iter().map(|&i| alpha[i].clone()).collect() };
             run_history(&case, &mut st);
         }
         st
@@ -378,7 +397,7 @@ pub fn run(tier: &str, replay: Option<&str>) -> i32 {
     ev.set("traces_validated_against_impl", tot.histories);
     ev.set("evaluations", tot.histories + tot.prune_cases + tot.kscope_cases);
     ev.set("distinct_nontrivial", tot.hits_checked + tot.prune_must_remove);
-    ev.set("rule", format!("(1) all 12^{depth} histories per metric x dim {{2,33,40}} over searches (two queries, k 1/2, two scopes), inserts/overwrites that move a document, a new closer document, delete, metadata update, bulk load, drain; whenever the path is CacheHit the served list must be a valid fresh top-k of the current reference map (live ids, current distances, right cardinality, no omitted strictly-closer document), judged only where the uncached (ef-override) path is itself exact; (2) for every (query, inserted vector) pair of a {{0,1,32,33}}-supported lattice in dim 40 x metric x five cached-boundary values straddling the exact distance: an entry whose boundary exceeds the exact f64 distance by more than tolerance must be removed by invalidate_for_insert; (3) every ordered (k1,k2) in 1..3 and every ordered scope pair in 0..2 at similarity thresholds {{0,0.5,1}}: an entry stored for k1 never answers k2>k1 and never answers another scope. non-trivial = cache hits judged + pruning cases where removal is mandatory"));
+    ev.set("rule", format!("(1) all 12^{depth} histories per metric x dim {{2,33,40}} x 3 initial states (empty, two populations of three documents at ordered distances from query 0) over searches (two queries, k 1/2, two scopes), inserts/overwrites that move a document, a new closer document, delete, metadata update, bulk load, drain; whenever the path is CacheHit the served list must be a valid fresh top-k of the current reference map (live ids, current distances, right cardinality, no omitted strictly-closer document), judged only where the uncached (ef-override) path is itself exact; (2) for every (query, inserted vector) pair of a {{0,1,32,33}}-supported lattice in dim 40 x metric x five cached-boundary values straddling the exact distance: an entry whose boundary exceeds the exact f64 distance by more than tolerance must be removed by invalidate_for_insert; (3) every ordered (k1,k2) in 1..3 and every ordered scope pair in 0..2 at similarity thresholds {{0,0.5,1}}: an entry stored for k1 never answers k2>k1 and never answers another scope. non-trivial = cache hits judged + pruning cases where removal is mandatory"));
     ev.set("samples", json!([{"part":1,"metric":"cosine","dim":40,"history":alpha.iter().take(5).collect::<Vec<_>>()},{"part":2,"coords":[0,1,32,33]}]));
     ev.set("exhaustive", true);
     ev.set("cache_hits_seen", tot.cache_hits);
